@@ -34,14 +34,48 @@ def make_interp():
                    "RunningCovarianceMatrix": u.RunningCovarianceMatrix})
 
 
+MAX_PATHS = 64
+EXC_FAILS = []
+
+
+def all_paths(ex, runner):
+    """every feasible path of the kernel (the unchanged kernels have exactly one; a change that makes them
+    branch on the samples is followed path by path, up to MAX_PATHS)"""
+    outs = []
+    EXC_FAILS[:] = []
+    for ctx, out in ex.paths(runner):
+        if out[0] != "ret":
+            # the real code raises on a feasible input: a failure of the property, with a witness
+            s = z3.Solver()
+            s.add(ctx.pc)
+            wit = None
+            if check(s) == "sat":
+                m = s.model()
+                wit = [str(m.eval(d(), model_completion=True)) for d in m.decls()][:12]
+            EXC_FAILS.append(("statistics of the fed samples raise %s" % out[1], wit))
+            continue
+        outs.append((ctx, out[1]))
+        if len(outs) > MAX_PATHS:
+            raise EncodingError("kernel forks into more than %d paths" % MAX_PATHS)
+    return outs
+
+
 def single_path(ex, runner):
-    outs = list(ex.paths(runner))
+    outs = all_paths(ex, runner)
     if len(outs) != 1:
         raise EncodingError("kernel forked into %d paths" % len(outs))
-    ctx, out = outs[0]
-    if out[0] != "ret":
-        raise EncodingError("kernel raised %s" % out[1])
-    return ctx, out[1]
+    return outs[0]
+
+
+def merge(results):
+    out = {"paths": len(EXC_FAILS), "obligations": len(EXC_FAILS), "discharged": 0, "fail": list(EXC_FAILS),
+           "inconclusive": []}
+    for r in results:
+        for k in ("paths", "obligations", "discharged"):
+            out[k] += r[k]
+        out["fail"] += r["fail"]
+        out["inconclusive"] += r["inconclusive"]
+    return out
 
 
 def neq(a, b):
@@ -65,14 +99,16 @@ def check_stats(K, chunked):
         var = I._invoke(ctx, I.props[("RunningStatistics", "var")], [rs], {})
         return rs.f["count"], rs.f["mean"], rs.f["M2"], var
 
-    ctx, (count, mean, M2, var) = single_path(Explorer([]), runner)
     S = z3.Sum(xs) if K > 1 else xs[0]
     Q = z3.Sum([x * x for x in xs]) if K > 1 else xs[0] * xs[0]
-    obl = [("count == K", None if count == K else False),
-           ("K * mean == sum(x)", neq(to_real(to_term(mean)) * K, S)),
-           ("M2 == sum(x^2) - sum(x)^2 / K", neq(M2, Q - S * S / K)),
-           ("var == M2 / K", neq(var, to_real(to_term(M2)) / K))]
-    return discharge(ctx, obl, xs)
+    res = []
+    for ctx, (count, mean, M2, var) in all_paths(Explorer([]), runner):
+        obl = [("count == K", None if count == K else False),
+               ("K * mean == sum(x)", neq(to_real(to_term(mean)) * K, S)),
+               ("M2 == sum(x^2) - sum(x)^2 / K", neq(M2, Q - S * S / K)),
+               ("var == M2 / K", neq(var, to_real(to_term(M2)) / K))]
+        res.append(discharge(ctx, obl, xs))
+    return merge(res)
 
 
 def check_covar(K):
@@ -87,21 +123,24 @@ def check_covar(K):
         for x, y in zip(xs, ys):
             I.call_method(ctx, rc, "update", [x, y])
         covar = I._invoke(ctx, I.props[("RunningCovariance", "covar")], [rc], {})
-        sc = I._invoke(ctx, I.props[("RunningCovariance", "sample_covar")], [rc], {}) if K > 1 else None
+        sc = (I._invoke(ctx, I.props[("RunningCovariance", "sample_covar")], [rc], {})
+              if (K > 1 and rc.f["count"] != 1) else None)
         return rc.f["count"], rc.f["xmean"], rc.f["ymean"], rc.f["C"], covar, sc
 
-    ctx, (count, xm, ym, C, covar, sc) = single_path(Explorer([]), runner)
     Sx, Sy = z3.Sum(xs) if K > 1 else xs[0], z3.Sum(ys) if K > 1 else ys[0]
     Sxy = z3.Sum([x * y for x, y in zip(xs, ys)]) if K > 1 else xs[0] * ys[0]
     closed = Sxy - Sx * Sy / K
-    obl = [("count == K", None if count == K else False),
-           ("K * xmean == sum(x)", neq(to_real(to_term(xm)) * K, Sx)),
-           ("K * ymean == sum(y)", neq(to_real(to_term(ym)) * K, Sy)),
-           ("C == sum(xy) - sum(x) sum(y) / K", neq(C, closed)),
-           ("covar == C / K", neq(covar, closed / K))]
-    if K > 1:
-        obl.append(("sample_covar == C / (K - 1)", neq(sc, closed / (K - 1))))
-    return discharge(ctx, obl, xs + ys)
+    res = []
+    for ctx, (count, xm, ym, C, covar, sc) in all_paths(Explorer([]), runner):
+        obl = [("count == K", None if count == K else False),
+               ("K * xmean == sum(x)", neq(to_real(to_term(xm)) * K, Sx)),
+               ("K * ymean == sum(y)", neq(to_real(to_term(ym)) * K, Sy)),
+               ("C == sum(xy) - sum(x) sum(y) / K", neq(C, closed)),
+               ("covar == C / K", neq(covar, closed / K))]
+        if K > 1 and sc is not None:
+            obl.append(("sample_covar == C / (K - 1)", neq(sc, closed / (K - 1))))
+        res.append(discharge(ctx, obl, xs + ys))
+    return merge(res)
 
 
 def check_matrix(K, n):
@@ -117,18 +156,21 @@ def check_matrix(K, n):
         cnt = I._invoke(ctx, I.props[("RunningCovarianceMatrix", "count")], [a], {})
         return a.f["rcs"], b.f["rcs"], cnt
 
-    ctx, (ra, rb, cnt) = single_path(Explorer([]), runner)
-    obl = [("count == K", None if cnt == K else False)]
-    keys = sorted(ra)
-    if keys != [(i, j) for i in range(n) for j in range(i, n)]:
-        obl.append(("one accumulator per pair i <= j", False))
-    for (i, j) in keys:
-        Sx, Sy = z3.Sum(series[i]), z3.Sum(series[j])
-        Sxy = z3.Sum([x * y for x, y in zip(series[i], series[j])])
-        closed = Sxy - Sx * Sy / K
-        obl.append(("entry (%d,%d): C == closed form" % (i, j), neq(ra[(i, j)].f["C"], closed)))
-        obl.append(("entry (%d,%d): update_from_it == update" % (i, j), neq(rb[(i, j)].f["C"], ra[(i, j)].f["C"])))
-    return discharge(ctx, obl, [v for s in series for v in s])
+    res = []
+    for ctx, (ra, rb, cnt) in all_paths(Explorer([]), runner):
+        obl = [("count == K", None if cnt == K else False)]
+        keys = sorted(ra)
+        if keys != [(i, j) for i in range(n) for j in range(i, n)]:
+            obl.append(("one accumulator per pair i <= j", False))
+        for (i, j) in keys:
+            Sx, Sy = z3.Sum(series[i]), z3.Sum(series[j])
+            Sxy = z3.Sum([x * y for x, y in zip(series[i], series[j])])
+            closed = Sxy - Sx * Sy / K
+            obl.append(("entry (%d,%d): count == K" % (i, j), None if ra[(i, j)].f["count"] == K else False))
+            obl.append(("entry (%d,%d): C == closed form" % (i, j), neq(ra[(i, j)].f["C"], closed)))
+            obl.append(("entry (%d,%d): update_from_it == update" % (i, j), neq(rb[(i, j)].f["C"], ra[(i, j)].f["C"])))
+        res.append(discharge(ctx, obl, [v for s in series for v in s]))
+    return merge(res)
 
 
 def check_converged(K):
@@ -170,11 +212,15 @@ def discharge(ctx, obl, vars_):
         if neg is None:
             out["discharged"] += 1
             continue
-        if neg is False:
-            out["fail"].append((desc, None))
-            continue
         s = z3.Solver()
         s.set("timeout", 120000)
+        s.add(ctx.pc)
+        if neg is False:
+            # fails on every input of this path: any model of the path condition is a witness
+            if check(s) == "sat":
+                m = s.model()
+                out["fail"].append((desc, [str(m.eval(v, model_completion=True)) for v in vars_[:12]]))
+            continue
         s.add(neg)
         r = check(s)
         if r == "unsat":
